@@ -1721,6 +1721,10 @@ def transpose(surf, **kwargs):
         for trim in g.trims:
             ops.swap_trim_coordinates(trim, trims_done)
 
+    # The evaluation deltas of a container belong to the parametric directions, too (its surfaces are sampled with them)
+    if geom.type == "container":
+        geom.delta = (geom.delta[1], geom.delta[0])
+
     return geom
 
 
